@@ -185,3 +185,35 @@ def exercise(tx):
               lambda: tx.get_transaction_taproot_digest(0, [Script(['OP_1'])] * len(tx.inputs), [1000] * len(tx.inputs), 0, sighash=2)):
         try: f()
         except Exception: pass
+
+
+# ---------------------------------------------------------------- literal-directed boundaries
+_LITS = None
+
+
+def source_literals(limit=70001):
+    """every integer literal that appears in a comparison (or as a slice/shift bound) anywhere in the *current*
+    bitcoinutils sources, with its neighbours: candidate lengths / counts / values.  An edited or newly introduced
+    comparison constant is thereby probed on both sides without anyone having to anticipate it."""
+    global _LITS
+    if _LITS is None:
+        import ast, glob, os
+        from harness.common import REPO
+        vals = set()
+        for f in glob.glob(os.path.join(REPO, 'bitcoinutils', '*.py')):
+            try:
+                tree = ast.parse(open(f).read())
+            except SyntaxError:
+                continue
+            for node in ast.walk(tree):
+                if isinstance(node, ast.Compare):
+                    for c in [node.left] + list(node.comparators):
+                        for k in ast.walk(c):
+                            if isinstance(k, ast.Constant) and isinstance(k.value, int) and not isinstance(k.value, bool):
+                                vals.add(k.value)
+        out = set()
+        for v in vals:
+            for d in (-1, 0, 1):
+                if 0 <= v + d: out.add(v + d)
+        _LITS = sorted(out)
+    return [v for v in _LITS if v < limit]
